@@ -942,3 +942,20 @@ pub fn corner_schemas() -> Vec<Ty> {
 		},
 	]
 }
+
+/// the least number of bytes a value of this type occupies
+pub fn min_width(env: &Env, ty: &Ty, depth: u32) -> usize {
+	if depth > 8 {
+		return 0;
+	}
+	match env.resolve(ty) {
+		Ty::Null => 0,
+		Ty::Fixed { size, .. } | Ty::DecimalFixed { size, .. } => *size as usize,
+		Ty::Record { fields, .. } => fields.iter().map(|(_, t)| min_width(env, t, depth + 1)).sum(),
+		Ty::Float => 4,
+		Ty::Double => 8,
+		Ty::Duration { .. } => 12,
+		Ty::BigDecimal => 3,
+		_ => 1,
+	}
+}
